@@ -1559,6 +1559,130 @@ def translate_response_receiver():
     body = lambda m: [c for c in kids(m) if c.get("kind") == "CompoundStmt"][0]
     return tr.rstmt(body(recv)), tr.rstmt(body(clr))
 
+
+# ---- tx_response::message / tx_request::message: how the head is put together, when Content-Length is added ------------
+HEADER_NAMES = {"HEADER_CONTENT_LENGTH": "hf_HEADER_CONTENT_LENGTH", "HEADER_TRANSFER_ENCODING": "hf_HEADER_TRANSFER_ENCODING"}
+
+
+def translate_message_builder(header, cls):
+    """{ std::string output(line::to_string()); output += header_string_; bool a(npos == header_string_.find(H1));
+         bool b(npos == header_string_.find(H2)); if (a && b [&& content_permitted(status())]) output += content_length(n);
+         output += CRLF; return output; }  ->  M_Str.sstmt"""
+    with tempfile.TemporaryDirectory() as d:
+        tu = os.path.join(d, "tu.cpp")
+        with open(tu, "w") as f:
+            f.write('#include "%s"\n' % header)
+        p = subprocess.run(["clang++", "-std=c++17", "-I" + os.path.join(REPO, "include"), "-fsyntax-only",
+                            "-Xclang", "-ast-dump=json", "-Xclang", "-ast-dump-filter=" + cls, tu],
+                           stdout=subprocess.PIPE, stderr=subprocess.PIPE, text=True)
+        if p.returncode != 0:
+            raise Untranslatable("clang: " + p.stderr[-400:])
+        docs = load_docs(p.stdout)
+    fn = None
+    for dd in docs:
+        for n in walk(dd):
+            if n.get("kind") == "CXXRecordDecl" and n.get("name") == cls:
+                for m in kids(n):
+                    if m.get("kind") == "CXXMethodDecl" and m.get("name") == "message" and any(c.get("kind") == "CompoundStmt" for c in kids(m)):
+                        fn = m
+    if fn is None:
+        raise Untranslatable("%s::message: no body found" % cls)
+    body = [c for c in kids(fn) if c.get("kind") == "CompoundStmt"][0]
+    locals_ = []
+
+    def is_out(n):
+        n = strip(n)
+        return n.get("kind") == "DeclRefExpr" and n.get("referencedDecl", {}).get("name") == "output"
+
+    def this_member(n):
+        n = strip(n)
+        if n.get("kind") == "MemberExpr" and kids(n) and strip(kids(n)[0]).get("kind") == "CXXThisExpr":
+            return n.get("name")
+        return None
+
+    def piece(n):
+        """what is appended to / put into output"""
+        n = strip(n)
+        while n.get("kind") in ("MaterializeTemporaryExpr", "CXXBindTemporaryExpr", "CXXConstructExpr") and kids(n):
+            n = strip(kids(n)[0])
+        if this_member(n) == "header_string_":
+            return "SHeaderString"
+        if n.get("kind") == "DeclRefExpr" and n.get("referencedDecl", {}).get("name") == "CRLF":
+            return "SCRLF"
+        fnm, obj, args = call_name(n)
+        if fnm == "to_string" and obj is not None and obj.get("kind") == "CXXThisExpr" and not args:
+            return "SLineString"
+        if n.get("kind") == "CallExpr":
+            f = strip(kids(n)[0]); name = f.get("referencedDecl", {}).get("name"); a = kids(n)[1:]
+            if name == "content_length" and len(a) == 1 and strip(a[0]).get("kind") == "DeclRefExpr" and strip(a[0]).get("referencedDecl", {}).get("name") == "content_length":
+                return "SContentLengthLine"
+        raise Untranslatable("%s::message: a piece of the output" % cls)
+
+    def bexp(n):
+        n = strip(n)
+        k = n.get("kind")
+        if k == "BinaryOperator" and n.get("opcode") == "&&":
+            a, b = kids(n)
+            return "(SAndB %s %s)" % (bexp(a), bexp(b))
+        if k == "DeclRefExpr" and n.get("referencedDecl", {}).get("name") in locals_:
+            return "(SLocal %d%%nat)" % locals_.index(n["referencedDecl"]["name"])
+        if k == "BinaryOperator" and n.get("opcode") == "==":
+            npos = [m for m in walk(n) if m.get("kind") == "DeclRefExpr" and m.get("referencedDecl", {}).get("name") == "npos"]
+            finds = [call_name(m) for m in walk(n)]
+            hn = named_refs(n, HEADER_NAMES)
+            if npos and len(hn) == 1 and any(c[0] == "find" and this_member(c[1]) == "header_string_" for c in finds if c[0]):
+                return "(SNotFound %s)" % hn[0]
+        if k == "CallExpr":
+            f = strip(kids(n)[0]); name = f.get("referencedDecl", {}).get("name"); a = kids(n)[1:]
+            if name == "content_permitted" and len(a) == 1:
+                fnm, obj, args = call_name(a[0])
+                if fnm == "status" and obj is not None and obj.get("kind") == "CXXThisExpr":
+                    return "SContentPermitted"
+        raise Untranslatable("%s::message: a condition" % cls)
+
+    def append(n):
+        """output += X (std::string::operator+=)"""
+        n = strip(n)
+        if n.get("kind") == "CXXOperatorCallExpr":
+            ks = kids(n)
+            if any(m.get("kind") == "DeclRefExpr" and m.get("referencedDecl", {}).get("name") == "operator+=" for m in walk(ks[0])) and is_out(ks[1]):
+                return "(SAppendOut %s)" % piece(ks[2])
+        raise Untranslatable("%s::message: a statement" % cls)
+
+    out = []
+    for stn in kids(body):
+        k = stn.get("kind")
+        if k == "DeclStmt":
+            v = kids(stn)[0]
+            if v.get("name") == "output":
+                out.append("(SInitOut %s)" % piece(kids(v)[0]))
+            elif v.get("type", {}).get("qualType") == "bool":
+                out.append("(SLetB %d%%nat %s)" % (len(locals_), bexp(kids(v)[0])))
+                locals_.append(v.get("name"))
+            else:
+                raise Untranslatable("%s::message: a declaration" % cls)
+        elif k == "IfStmt":
+            ks = kids(stn)
+            if len(ks) != 2:
+                raise Untranslatable("%s::message: if with else" % cls)
+            t = ks[1]
+            t = kids(t)[0] if t.get("kind") == "CompoundStmt" and len(kids(t)) == 1 else t
+            out.append("(SIfS %s %s)" % (bexp(ks[0]), append(t)))
+        elif k == "ReturnStmt":
+            r = strip(kids(stn)[0])
+            while r.get("kind") in ("CXXConstructExpr", "MaterializeTemporaryExpr", "CXXBindTemporaryExpr") and kids(r):
+                r = strip(kids(r)[0])
+            if not is_out(r):
+                raise Untranslatable("%s::message: return" % cls)
+            out.append("SReturnOut")
+        else:
+            out.append(append(stn))
+    res = out[-1]
+    for x in reversed(out[:-1]):
+        res = "(SSeqS %s %s)" % (x, res)
+    return res
+
+
 CLASSES = [
     dict(name="rl", cls="request_line", header="via/http/request.hpp", enum="Request", state="state_", param="c",
          strs=["method_", "uri_"], nums=["ws_count_", "major_version_", "minor_version_", "valid_", "fail_"],
@@ -1659,7 +1783,7 @@ def translate_class(cfg):
 
 def main(dest):
     lines = ["(* Gen_Parse.v — GENERATED by translate/parse.py from the headers under include/via/http: do not edit. *)",
-             "From Via Require Import M_Char M_Parse M_Imp M_Loop M_Hdr M_Msg M_Chunk M_Query M_Recv.", "From Coq Require Import List NArith.", "Import ListNotations.", "Local Open Scope N_scope.", ""]
+             "From Via Require Import M_Char M_Parse M_Imp M_Loop M_Hdr M_Msg M_Chunk M_Query M_Recv M_Str.", "From Coq Require Import List NArith.", "Import ListNotations.", "Local Open Scope N_scope.", ""]
     for cfg in CLASSES:
         enum_index, progs = translate_class(cfg)
         names = sorted(enum_index, key=enum_index.get)
@@ -1726,6 +1850,9 @@ def main(dest):
     lines.append("(* response_receiver::receive(iter, end) and clear() *)")
     lines.append("Definition cv_receive_src : rstmt :=\n  %s." % cv_recv)
     lines.append("Definition cv_clear_src : rstmt :=\n  %s." % cv_clear)
+    lines.append("(* tx_response::message(content_length), tx_request::message(content_length) *)")
+    lines.append("Definition tx_response_message_src : sstmt :=\n  %s." % translate_message_builder("via/http/response.hpp", "tx_response"))
+    lines.append("Definition tx_request_message_src : sstmt :=\n  %s." % translate_message_builder("via/http/request.hpp", "tx_request"))
     txt = "\n".join(lines) + "\n"
     # unchanged output keeps its time stamp: make then has nothing to rebuild
     if not os.path.exists(dest) or open(dest).read() != txt:
